@@ -77,6 +77,8 @@ TG_SOLDOUT_Q = mc("TG_SoldOut_q", Templates={"F4"}, Amts={1, 2, 3}, MaxBids=3, T
                   Bidders={"u2", "u3"}, Goals={"bid_on_sold_out", "exact_remaining"}, tc_max=1500)
 TG_SOLD0_Q = mc("TG_Sold0_q", Templates={"B6"}, Prices={1, 3}, Amts={1, 3}, MaxBids=3, Tmax=2, Jump=1, CapSet={4}, StartOffsets={0}, CreateUntil=0,
                 Dur=2, MaxMods=0, Bidders={"u2", "u3"}, Goals={"nothing_sold_early_settle"}, tc_max=1500)
+TG_SURPLUS_Q = mc("TG_Surplus_q", Templates={"B0"}, Prices={1, 2}, Amts={5, 6}, MaxBids=2, Tmax=3, Jump=2, CapSet={10}, StartOffsets={0}, CreateUntil=0,
+                  MaxMods=0, MaxDon=2, BidKinds={"M"}, Bidders={"u2", "u3"}, Goals={"overdemand_with_surplus"}, tc_max=1500)
 TC_FIXEDI_Q = mc("TC_FixedI_q", WithInvalid=True, RejectSample=10, Templates={"F1"}, Amts={1, 3}, MaxBids=1, Tmax=5, Jump=3, CapSet={5}, StartOffsets={0},
                  CreateUntil=0, Bidders={"u2"})
 TC_FIXED_Q = mc("TC_Fixed_q", Templates={"F1", "F3"}, Amts={1, 2, 3}, MaxBids=2, Tmax=7, Jump=2, CapSet={3, 5}, StartOffsets={0, 1}, CreateUntil=1)
@@ -142,9 +144,9 @@ def scale(gens, f):
 PLANS = {
     "C01": dict(mc=[MC_BATCH_Q, MC_FIXED_Q], gen=GEN_GENERAL, tc=[TC_BATCH_Q, TC_FIXED_Q, TC_LIFE_Q], tc_max=1500),
     "C02": dict(mc=[MC_BATCH_Q, MC_FIXED_Q], gen=GEN_GENERAL + GEN_PARAMS, tc=[TC_EXT_Q, TC_CANCEL_Q], tc_max=2500),
-    "C03": dict(mc=[MC_BATCH_Q], gen=GEN_GENERAL, tc=[TC_BATCH_Q, TC_EXT_Q, TG_SOLD0_Q], tc_max=2500),
+    "C03": dict(mc=[MC_BATCH_Q], gen=GEN_GENERAL, tc=[TC_BATCH_Q, TC_EXT_Q, TG_SOLD0_Q, TG_SURPLUS_Q], tc_max=2500),
     "C04": dict(mc=[MC_BATCH_Q, MC_FIXED_Q], gen=GEN_GENERAL, tc=[TC_BATCH_Q, TC_FIXED_Q, TC_FIXEDI_Q], tc_max=2000),
-    "C05": dict(mc=[MC_BATCH_Q, MC_FIXED_Q], gen=GEN_GENERAL, tc=[TC_BATCH_Q, TC_FIXED_Q, TC_MULTIB_Q, TG_MULTI_Q], tc_max=1500),
+    "C05": dict(mc=[MC_BATCH_Q, MC_FIXED_Q], gen=GEN_GENERAL, tc=[TC_BATCH_Q, TC_FIXED_Q, TC_MULTIB_Q, TG_MULTI_Q, TG_SURPLUS_Q], tc_max=1500),
     "C06": dict(mc=[MC_FIXED_Q], gen=GEN_GENERAL, tc=[TC_FIXED_Q, TC_FIXEDI_Q, TG_NEARF_Q, TG_SOLDOUT_Q], tc_max=3000),
     "C07": dict(mc=[MC_LIFE_Q, MC_LIFE2_Q],
                 gen=GEN_GENERAL + [dict(g, name=g["name"] + "F", consts=dict(g["consts"], Faults={0, 1, 2, 3, 5, 8})) for g in GEN_MANY],
